@@ -38,15 +38,15 @@ def _case(args):
     blur = USAGE_BLURS[seed % len(USAGE_BLURS)]
     if want == "C16" and blur is None:
         blur = 45
-    cfg = {"allow_list": rng.random() < 0.8, "usage": True if want == "C16" else rng.random() < 0.7, "blur": blur}
+    cfg = {"allow_list": rng.random() < 0.8, "usage": True if want in ("C16", "C14") else rng.random() < 0.7, "blur": blur}
     res = {"seed": seed, "profile": "lock", "cfg": cfg, "n_events": 0, "div": None, "mon": {},
-           "nontrivial": {"C09": 0, "C16": 0, "C02": 0}, "kf": [], "stale": [], "kinds": {}, "meta": {}, "no_model": True}
+           "nontrivial": {"C09": 0, "C16": 0, "C02": 0, "C14": 0}, "kf": [], "stale": [], "kinds": {}, "meta": {}, "no_model": True}
     try:
         w = WORLD.World(cfg, seed=seed)
     except Exception:
         return {"seed": seed, "profile": "lock", "harness_error": traceback.format_exc()}
     events = []
-    viol09, viol16, viol10, viol13, viol02 = [], [], [], [], []
+    viol09, viol16, viol10, viol13, viol02, viol14 = [], [], [], [], [], []
     arrivals = []            # every time at which the server was handed anything
     try:
         def in_tx():
@@ -56,6 +56,8 @@ def _case(args):
         last = [0]
 
         def do(ev, faulted=False):
+            if ev["k"] in ("cmd", "disconnect") and ev["c"] not in w.conns:
+                return None, []          # the server dropped that connection earlier (an exception escaped a handler)
             w._reset_event()
             events.append(ev)
             arrivals.append(w.t)
@@ -125,11 +127,12 @@ def _case(args):
         do({"k": "advance", "dt": rng.choice([1, 8, 13, 59 * 8 + 3]), "fault": False})
         closed_or_dropped = set()
         # ---- the fault
-        which = "U" if (want == "C16" or (cfg["usage"] and rng.random() < (0.6 if want == "C13" else 0.4))) else "C"
+        which = "U" if (want == "C16" or (want in ("C14", "C07", "C08") and cfg["usage"] and rng.random() < 0.7) or (cfg["usage"] and rng.random() < (0.6 if want == "C13" else 0.4))) else "C"
         mode = rng.choice(["shared", "reserved"])
         rounds = rng.choice([1, 1, 2])
         for _round in range(rounds):
             lock(which, mode)
+            acked = None
             c3, b3 = client(app, rng.choice(["s1", "s2", "s3"]))
             if which == "U":
                 cands = ["bind", "bind", "release", "close", "sweep"]
@@ -140,6 +143,8 @@ def _case(args):
                 kind = "sweep"
             if want == "C02" and which == "C" and rng.random() < 0.7:
                 kind = "open"
+            if want in ("C14", "C07", "C08") and rng.random() < 0.8:
+                kind = rng.choice(["release", "close"])
             if kind == "bind":
                 do({"k": "cmd", "c": c3, "msg": b3}, faulted=True)
             elif kind == "sweep":
@@ -148,10 +153,14 @@ def _case(args):
             elif kind == "add":
                 do({"k": "cmd", "c": c1, "msg": {"type": "add", "phase": "q", "body": "01"}}, faulted=True)
             elif kind == "release":
-                do({"k": "cmd", "c": c1, "msg": {"type": "release"}}, faulted=True)
+                exc, log = do({"k": "cmd", "c": c1, "msg": {"type": "release"}}, faulted=True)
+                if any(e[0] == "F" and e[1] == c1 and e[3] == "released" for e in log):
+                    acked = ("release", "s1", {"type": "release", "nameplate": "1"}, "released")
             elif kind == "close":
                 closed_or_dropped.add(c2)
-                do({"k": "cmd", "c": c2, "msg": {"type": "close", "mood": "happy"}}, faulted=True)
+                exc, log = do({"k": "cmd", "c": c2, "msg": {"type": "close", "mood": "happy"}}, faulted=True)
+                if any(e[0] == "F" and e[1] == c2 and e[3] == "closed" for e in log):
+                    acked = ("close", "s2", {"type": "close", "mailbox": "mlock", "mood": "happy"}, "closed")
             else:
                 unlock()
                 do({"k": "cmd", "c": c3, "msg": b3})
@@ -161,6 +170,32 @@ def _case(args):
                        "allocate": {"type": "allocate"}}[kind]
                 do({"k": "cmd", "c": c3, "msg": msg}, faulted=True)
             unlock()
+            if acked is not None:
+                # C14 (C07 C08): the command was ACKNOWLEDGED although a fault struck while it ran.  The client that
+                # did not see the answer reconnects with the same side and sends it again: same answer, and the
+                # stored channel state as it was (an acknowledged release / close has completed)
+                what, dside, dmsg, answer = acked
+                res["nontrivial"]["C14"] += 1
+                def canon(d):
+                    d = dict(d)
+                    d["mb"] = [[r[0], r[1], "*", r[3]] for r in d["mb"]]     # (KF4: a re-sent close re-stamps `updated`)
+                    return d
+                before = canon(w.dump_chan(w.chan_db))
+                cd, bd = client(app, dside, cv=False)
+                do({"k": "cmd", "c": cd, "msg": bd})
+                exc, log = do({"k": "cmd", "c": cd, "msg": dmsg})
+                after = canon(w.dump_chan(w.chan_db))
+                got = [e[3] for e in log if e[0] == "F" and e[1] == cd and e[3] != "ack"]
+                if got != [answer] and not (got == ["error"]):
+                    viol14.append("the %s acknowledged during the fault, re-sent on a fresh connection, is answered %s" % (what, got))
+                elif got == [answer] and before != after:
+                    diff = [k for k in before if before[k] != after[k]]
+                    viol14.append("the %s was acknowledged (`%s`) while a database was locked; re-sent by the same side on a fresh "
+                                  "connection it changes the stored channel state (%s): the acknowledged command had not "
+                                  "completed.  before %s / after %s"
+                                  % (what, answer, diff, json.dumps({k: before[k] for k in diff})[:300],
+                                     json.dumps({k: after[k] for k in diff})[:300]))
+                do({"k": "disconnect", "c": cd})
             # ---- afterwards: the lock is gone; ordinary traffic again (new binds, the timer)
             c4, b4 = client(app, rng.choice(["s1", "s2"]))
             do({"k": "advance", "dt": rng.choice([1, 8, 21]), "fault": False})
@@ -243,6 +278,9 @@ def _case(args):
             res["meta"]["C13"] = meta("C13", viol13)
         if viol02:
             res["meta"]["C02"] = meta("C02", viol02)
+        if viol14:
+            for _p in ("C14", "C07", "C08"):
+                res["meta"][_p] = meta(_p, viol14)
         return res
     except Exception:
         return {"seed": seed, "profile": "lock", "harness_error": traceback.format_exc()}
